@@ -1482,7 +1482,7 @@ class Explorer:
             nice = []
             for v_ in self.names.values():
                 if z3.is_real(v_) and z3.is_const(v_):
-                    nice.append(z3.And(v_ <= 10 ** 6, v_ >= -10 ** 6, z3.Or(v_ == 0, v_ >= z3.RealVal('1/1000000'), v_ <= z3.RealVal('-1/1000000'))))
+                    nice.append(z3.And(v_ <= 1000, v_ >= -1000, z3.Or(v_ == 0, v_ >= z3.RealVal('1/1000'), v_ <= z3.RealVal('-1/1000'))))
             dz, seen_d = [], set()
             for d_ in getattr(self, 'div_terms', []):
                 if d_.get_id() not in seen_d:
@@ -1502,6 +1502,12 @@ class Explorer:
                         break
                 except z3.Z3Exception:
                     pass
+            else:
+                # no moderate-magnitude model within the budget: try inputs pinned to small rationals (same query, extra equalities)
+                if nice and not (isinstance(info, str) and 'inputs pinned' in info):
+                    r4, s4 = self._pinned_model_search(neg, rounds=16)
+                    if r4 == 'sat':
+                        m = s4.model()
         model = {}
         for n, v in self.names.items():
             val = m.eval(v, model_completion=True)
@@ -1730,9 +1736,13 @@ class FloatCtx:
         tab = self.model.get('__uf__') if isinstance(self.model, dict) else None
         if tab:
             fa = [float(a) for a in args]
+            best, best_d = None, None
             for (n_, av, vv) in tab:
-                if n_ == name and len(av) == len(fa) and all(abs(x - y) <= 1e-7 * max(1.0, abs(x), abs(y)) for x, y in zip(av, fa)):
-                    return vv
+                if n_ == name and len(av) == len(fa):
+                    d = max([abs(x - y) / max(1e-3, abs(x), abs(y)) for x, y in zip(av, fa)] or [0.0])
+                    if d <= 1e-9 and (best_d is None or d < best_d):
+                        best, best_d = vv, d
+            return best
         return None
 
     def uf(self, name, *args, nonneg=False, pos=False):
@@ -1745,7 +1755,7 @@ class FloatCtx:
         h = zlib.crc32(name.encode()) % 9973
         s = 0.0
         for k, a in enumerate(args):
-            s += (k + 1.37) * math.atan(float(a) * 1e-3 if abs(float(a)) > 1e3 else float(a))
+            s += (k + 1.37) * (math.atan(float(a)) + 1e-3 * math.sin(float(a)))
         v = 1.0 + 0.5 * math.sin(h + s) + (h % 17) * 0.0625
         self.uf_log.setdefault(name, []).append([float(a) for a in args])
         return v
